@@ -11,3 +11,5 @@ pub type Result<T, U = core::convert::Infallible> = core::result::Result<T, Erro
 pub unsafe fn transmute_entry_to_static(key: &[u8], val: &[u8]) -> (r: (&'static [u8], &'static [u8]))
     ensures r.0@ == key@, r.1@ == val@,
 { unimplemented!() }
+pub use crate::merge_function::MergeFunction;
+pub use crate::writer::Writer;
